@@ -260,7 +260,9 @@ class Arbiter(object):
                 cfg = i.copy()
                 cmd = get_plugin_cmd(cfg, self.endpoint,
                                      self.pubsub_endpoint, self.check_delay,
-                                     self.ssh_server, debug=self.debug)
+                                     self.ssh_server, debug=self.debug,
+                                     loglevel=self.loglevel,
+                                     logoutput=self.logoutput)
 
                 # (the same keys as the configuration the plugin's watcher
                 # was built from at start-up: a key missing here would make
